@@ -277,3 +277,95 @@ func VerifC16_SlowConsumer() {
 	}
 	verifReach("end")
 }
+
+// Nine token-bearing nodes (K is 8): eight have answered and been taken off Peers; the ninth - the
+// closest one - answers while the consumer is busy, StopTraversing is called, the consumer resumes.
+// announce_peer must go to the members of the FINAL closest set: the latecomer is in, the farthest of
+// the first eight is out.
+func VerifC16_FullSetLatecomer() {
+	verifLimiterAlwaysGrants()
+	v := verifStartServer(verifSrvOpt{noSecurity: true, concreteID: true})
+	verifFreezeClock(true)
+	n := &verifC16Net{v: v, ih: krpc.ID{0x11, 0x22}}
+	const count = 9
+	for i := 0; i < count; i++ {
+		r := &verifRemote{addr: &net.UDPAddr{IP: net.IP{10, 7, 0, byte(i + 1)}, Port: 6000 + i}, answers: true,
+			token: string([]byte{'t', 'k', byte('a' + i)})}
+		r.id = n.ih
+		r.id[19] = byte(i + 1) // remote 0 is the closest, remote 8 the farthest
+		n.remotes = append(n.remotes, r)
+	}
+	var starting []Addr
+	for _, r := range n.remotes {
+		starting = append(starting, NewAddr(r.addr))
+	}
+	v.s.config.StartingNodes = func() ([]Addr, error) { return starting, nil }
+	a, err := v.s.AnnounceTraversal(n.ih, AnnouncePeer(AnnouncePeerOpts{Port: 4242}))
+	if err != nil {
+		verifFail("C16: AnnounceTraversal starts")
+		return
+	}
+	resume := make(chan struct{})
+	got := 0
+	go func() {
+		for range a.Peers {
+			got++
+			if got == count-1 {
+				<-resume // busy after the eighth response
+			}
+		}
+	}()
+	// answer everybody except the closest node first
+	late := n.remotes[0]
+	var lateQuery *verifDatagram
+	for i := 0; i < 60 && got < count-1; i++ {
+		verifQuiesce()
+		n.absorb()
+		progressed := false
+		for k := 0; k < len(n.pending); k++ {
+			if verifSameUDP(n.pending[k].addr, late.addr) {
+				d := n.pending[k]
+				lateQuery = &d
+				n.pending = append(n.pending[:k:k], n.pending[k+1:]...)
+				k--
+				continue
+			}
+			d := n.pending[k]
+			n.pending = append(n.pending[:k:k], n.pending[k+1:]...)
+			v.sock.deliver(d.b, d.addr)
+			progressed = true
+			break
+		}
+		if !progressed {
+			break
+		}
+	}
+	verifAssert(got == count-1 && lateQuery != nil, "C16 harness: eight responses delivered, the closest node's reply withheld")
+	if lateQuery == nil {
+		return
+	}
+	v.sock.deliver(lateQuery.b, lateQuery.addr) // arrives while the consumer is busy
+	a.StopTraversing()
+	verifQuiesce()
+	close(resume)
+	for i := 0; i < 60; i++ { // the announce_peer queries are answered in the order they were written
+		verifQuiesce()
+		n.absorb()
+		if len(n.pending) > 0 {
+			d := n.pending[0]
+			n.pending = n.pending[1:]
+			v.sock.deliver(d.b, d.addr)
+		} else if verifFireTimers() == 0 {
+			break
+		}
+	}
+	verifQuiesce()
+	n.absorb()
+	verifAssert(got == count, "C16: the response pending at StopTraversing is still delivered")
+	verifAssert(len(late.announce) == 1 && late.announce[0].A.Token == late.token, "C16: the latecomer, a member of the final closest set, is announced to with its own token")
+	verifAssert(len(n.remotes[count-1].announce) == 0, "C16: the node pushed out of the closest set gets no announce_peer")
+	for i := 1; i < count-1; i++ {
+		verifAssert(len(n.remotes[i].announce) == 1, "C16: every member of the final closest set is announced to once")
+	}
+	verifReach("end")
+}
